@@ -50,6 +50,20 @@ fn main() {
             }
         }
         "selftest" => std::process::exit(props::selftest::run(&repo_dir())),
+        #[cfg(feature = "likelysubtags")]
+        "conc-build" => {
+            let ctx = ctx_for("C06", "quick");
+            match props::conc::prepare(&ctx) {
+                Ok(b) => {
+                    println!("schedule-exploration harness built: {} ({} library files, {} sync tokens rewritten)", b.bin, b.files, b.rewritten);
+                    std::process::exit(0)
+                }
+                Err(e) => {
+                    eprintln!("ENGINE-FAILURE {}", e);
+                    std::process::exit(3)
+                }
+            }
+        }
         _ => usage(),
     }
 }
